@@ -157,6 +157,11 @@ func (cl *Cluster) DeliverGossip(i int, to *Node) {
 	if to.Down || to.ID == g.From {
 		return
 	}
+	if from := cl.NodeByID(g.From); from != nil && from.Down {
+		// memberlist declares a node dead only after seconds of silence: its broadcasts do not
+		// arrive after the survivors have been told about the failure
+		return
+	}
 	to.State.Distributor().NotifyMsg(g.Msg)
 	g.Sent[to.ID]++
 	atomic.AddInt64(&cl.activity, 1)
@@ -169,6 +174,9 @@ func (cl *Cluster) DeliverAllGossip() int {
 	k := 0
 	for i, g := range cl.gossip {
 		for _, n := range cl.Nodes {
+			if from := cl.NodeByID(g.From); from != nil && from.Down {
+				continue
+			}
 			if !n.Down && n.ID != g.From && g.Sent[n.ID] == 0 {
 				cl.DeliverGossip(i, n)
 				k++
